@@ -5,4 +5,4 @@
 using namespace simd;
 using intervals_t = ikos::interval_domain<z_number, varname_t>;
 using D = array_adaptive_domain<flat_boolean_numerical_domain<intervals_t>>;
-SIM_REGISTER_DOMAIN(aa_bool_intervals, D, "aa_bool_intervals", CAP_ARRAY | CAP_BOOL | CAP_CORE)
+SIM_REGISTER_DOMAIN(aa_bool_intervals, D, "aa_bool_intervals", CAP_ARRAY | CAP_BOOL | CAP_CORE | CAP_BACKWARD)
